@@ -281,6 +281,7 @@ func runPipeline(c *core.Check, specs map[string]*aspec.ASpec, groups []pGroup) 
 	}
 	gi := -1
 	var caseOf map[string]*driver.ReqCase // cases of the current group by id
+	var nested map[string]any             // the internal forward being folded
 	for _, raw := range evs {
 		var e map[string]any
 		if err := json.Unmarshal(raw, &e); err != nil {
@@ -291,7 +292,27 @@ func runPipeline(c *core.Check, specs map[string]*aspec.ASpec, groups []pGroup) 
 		if cid != "" && len(run.raw[cid]) < 40 {
 			run.raw[cid] = append(run.raw[cid], trunc(string(raw), 400))
 		}
+		// an internal forward (the handler dispatches another request through the same API value): its events are
+		// folded into one Nested event - which operation ran and which template it and the middlewares were shown
+		if nested != nil && e["ev"] != "NestedEnd" {
+			switch e["ev"] {
+			case "MwEnter":
+				t, _ := e["tmpl"].(string)
+				nested["mwTmpls"] = append(nested["mwTmpls"].([]string), t)
+			case "Handler":
+				nested["op"], nested["tmpl"], nested["has"] = e["op"], e["tmpl"], e["has"]
+			case "NestedPanic":
+				nested["panic"] = e["panic"]
+			}
+			continue
+		}
 		switch e["ev"] {
+		case "NestedBegin":
+			p, _ := e["path"].(string)
+			nested = map[string]any{"ev": "Nested", "method": "GET", "kind": "abs", "segs": strings.Split(strings.TrimPrefix(p, "/"), "/"), "op": "", "tmpl": "", "has": false, "mwTmpls": []string{}, "panic": ""}
+		case "NestedEnd":
+			add(nested)
+			nested = nil
 		case "DriverError":
 			c.HarnessError(fmt.Sprintf("driver: %v", e["err"]))
 			return nil, false
